@@ -815,6 +815,43 @@ class Wide:
             self.int_funcs.append((name, lo, npos, kwonly, poskw))
         return lines, name, lo, npos
 
+    def ending_function(self, genv):
+        """a function whose last statement is a compound statement whose blocks end with (valueless or valued) returns"""
+        r = self.rng
+        name = self.fresh('f')
+        p = self.fresh('a')
+        env = dict(genv)
+        env[p] = 'int'
+        env['#local:' + p] = True
+        benv = _LocalEnv(env, set(genv))
+        ctx = dict(func=True, loop=False, ret='int', nofn=True)
+
+        def blk(n=1):
+            return self.block(cp(benv), ctx, 2, n)
+
+        def ret():
+            return r.choice(['return', 'return None', 'return', 'return %s' % self.e_int(benv, 2), 'print("end of block")'])
+        body = self.block(benv, ctx, 1, r.randint(0, 2)) if r.random() < 0.6 else []
+        kind = r.choice(['try-else', 'try-finally', 'if-else', 'with', 'nested', 'loop', 'try-else'])
+        risky = r.choice(['print(10 // (%s %% 3))' % p, "print(int('12'))", 'print([1, 2][%s %% 3])' % p, 'print(%s)' % self.e_int(benv, 2)])
+        if kind == 'try-else':
+            tail = ['try:'] + self.ind([risky] + blk() + [ret()]) + ['except (ZeroDivisionError, IndexError):'] + self.ind(['print("handler")'] + ([ret()] if r.random() < 0.5 else [])) + \
+                   ['else:'] + self.ind(['print("else block")'] + blk())
+        elif kind == 'try-finally':
+            tail = ['try:'] + self.ind([risky, ret()]) + ['except (ZeroDivisionError, IndexError):'] + self.ind(['print("handler")', ret()]) + ['finally:'] + self.ind(['print("finally block")'])
+        elif kind == 'if-else':
+            tail = ['if %s:' % self.e_bool(benv, 2)] + self.ind(blk() + [ret()]) + ['else:'] + self.ind(blk() + [ret()])
+        elif kind == 'with':
+            self.used.add('cm')
+            tail = ['with Managed(%s):' % p] + self.ind(blk() + [ret()])
+        elif kind == 'loop':
+            tail = ['for %s_i in range(%s %% 3):' % (p, p)] + self.ind(['print("iteration")', ret()]) + ['else:'] + self.ind(['print("loop else")', ret()])
+        else:
+            tail = ['if %s %% 2:' % p] + self.ind(['try:'] + self.ind([risky, ret()]) + ['except (ZeroDivisionError, IndexError):'] + self.ind(['pass']) + ['else:'] + self.ind(['print("inner else")']))
+        lines = ['def %s(%s):' % (name, p)] + self.ind(body + tail)
+        calls = ['print(%s(%d))' % (name, k) for k in r.sample(range(0, 7), 3)]
+        return lines, calls
+
     def generator_fn(self, genv):
         r = self.rng
         name = self.fresh('f')
@@ -982,10 +1019,13 @@ def _program(rng):
             v = g.fresh('v')
             defs.append('%s = %s(%s)' % (v, name, g.lit_int()))
             defs.append('print(%s.value, %s.double(), %s.prop, type(%s).__name__)' % (v, v, v, v))
-        else:
+        elif c < 0.88:
             lines, name = g.generator_fn(genv)
             defs += lines
             defs.append('print(list(%s(%s)))' % (name, g.lit_int()))
+        else:
+            lines, calls = g.ending_function(genv)
+            defs += lines + calls
     body = g.block(genv, dict(func=False, loop=False), 0, rng.randint(3, 8))
     for _f in g.int_funcs:
         if rng.random() < 0.7:
